@@ -145,7 +145,30 @@ func (e *skelEval) run(fn *ssa.Function, args []*big.Int) (*big.Int, error) {
 				if res != nil {
 					env[x] = wrapTo(res, x.Type(), e.sizes)
 				}
+			case *ssa.Slice:
+				// the length of x[lo:hi] when hi is known (range over buf[:n])
+				if x.High != nil {
+					if hi := get(x.High); hi != nil {
+						lo := bi(0)
+						if x.Low != nil {
+							lo = get(x.Low)
+						}
+						if lo != nil {
+							env[x] = new(big.Int).Sub(hi, lo)
+						}
+					}
+				}
 			case *ssa.Call:
+				if bt, ok := x.Common().Value.(*ssa.Builtin); ok {
+					if bt.Name() == "len" && len(x.Common().Args) == 1 {
+						if _, isSlice := x.Common().Args[0].(*ssa.Slice); isSlice {
+							if v := get(x.Common().Args[0]); v != nil {
+								env[x] = v
+							}
+						}
+					}
+					continue
+				}
 				// a call of another method of the module on a known integer receiver
 				if sc := x.Common().StaticCallee(); sc != nil && e.c.P.InModule(sc) && len(sc.Blocks) > 0 {
 					var as []*big.Int
@@ -348,14 +371,20 @@ func (c *Ctx) VarLen() []core.Ob {
 			okShape := false
 			for _, b := range wt.Blocks {
 				for _, in := range b.Instrs {
-					ci, ok := in.(*ssa.Call)
-					if !ok || !ci.Common().IsInvoke() || ci.Common().Method.Name() != "Write" {
+					sl, ok := in.(*ssa.Slice)
+					if !ok || sl.Low != nil || sl.High == nil {
 						continue
 					}
-					if sl, ok := ci.Common().Args[0].(*ssa.Slice); ok && sl.Low == nil && sl.High != nil {
-						if cl, ok := sl.High.(*ssa.Call); ok && strings.HasSuffix(calleeName(cl.Common()), "."+"WriteToBytes") {
-							okShape = true
+					hi := sl.High
+					for {
+						if cv, ok := hi.(*ssa.Convert); ok {
+							hi = cv.X
+							continue
 						}
+						break
+					}
+					if cl, ok := hi.(*ssa.Call); ok && strings.HasSuffix(calleeName(cl.Common()), "."+"WriteToBytes") && c.flowsToWrite(sl, 3) {
+						okShape = true
 					}
 				}
 			}
@@ -471,6 +500,43 @@ func hasReadByte(b *ssa.BasicBlock) bool {
 	for _, in := range b.Instrs {
 		if ci, ok := in.(ssa.CallInstruction); ok && ci.Common().IsInvoke() && ci.Common().Method.Name() == "ReadByte" {
 			return true
+		}
+	}
+	return false
+}
+
+// flowsToWrite: v is the argument of an io.Writer Write, directly or through
+// module functions that forward the parameter to one (writeAll(w, p)).
+func (c *Ctx) flowsToWrite(v ssa.Value, depth int) bool {
+	if depth <= 0 || v.Referrers() == nil {
+		return false
+	}
+	for _, r := range *v.Referrers() {
+		ci, ok := r.(ssa.CallInstruction)
+		if !ok {
+			continue
+		}
+		cc := ci.Common()
+		if cc.IsInvoke() {
+			if cc.Method.Name() == "Write" && len(cc.Args) == 1 && cc.Args[0] == v {
+				return true
+			}
+			continue
+		}
+		sc := cc.StaticCallee()
+		if sc == nil {
+			continue
+		}
+		if n := calleeName(cc); strings.HasSuffix(n, ").Write") && len(cc.Args) == 2 && cc.Args[1] == v {
+			return true
+		}
+		if !c.P.InModule(sc) || len(sc.Blocks) == 0 {
+			continue
+		}
+		for i, a := range cc.Args {
+			if a == v && i < len(sc.Params) && c.flowsToWrite(sc.Params[i], depth-1) {
+				return true
+			}
 		}
 	}
 	return false
